@@ -63,7 +63,7 @@ def gen_config(rng, mode=None, combo=None, big=False):
         "age_gap": rng.choice([1, 1, 2, 2, 3, 4, 7, 20]), "p_same": rng.choice([0, 0.5, 0.75, 1]),
         "p_cross": rng.choice([0.3, 0.9, 1] if kind == "de" else [0, 0.3, 0.9, 1]),
         "p_mutation": rng.choice([0, 0.04, 0.5, 1]), "brood": rng.choice([1, 1, 2, 3, 4]),
-        "generations": gens, "cache": rng.choice([0, 1]), "eval": rng.choice(["h", "h", "v", "r"]),
+        "generations": gens, "cache": rng.choice([0, 1]), "eval": rng.choice(["h", "h", "v", "r", "n"]),
         "evalmod": rng.choice([1, 2, 3, 7, 1000]), "shake_every": rng.choice([0, 0, 0, 2, 3]),
         "max_stuck": rng.choice([4294967295, 4294967295, 0, 1, 2, 3]),
         "shake0": rng.choice([0, 0, 1]),
@@ -102,6 +102,14 @@ def gen_cases(ck):
                 c.update(shake0=shake0, shake_every=every, eval=ev, evalmod=1000, generations=max(2, c["generations"]),
                          max_stuck=4294967295)
                 cases.append(c)
+    # nearly equal, distinct fitness values (relative distance 1e-11) with elitism and a tournament of one:
+    # the individual replaced is the one selected, so a tolerance in the elitist test lowers the maximum
+    for combo in [cb for cb in COMBOS if cb[1] in ("std", "de")]:
+        for _ in range(4 if ck.thorough else 2):
+            c = gen_config(rng, "step", combo)
+            c.update(eval="n", evalmod=1000, elitism=1, tournament=1, individuals=rng.choice([4, 5, 6]),
+                     min_individuals=2, generations=8, shake_every=0, shake0=0, max_stuck=4294967295)
+            cases.append(c)
     # ALPS selections from populations with UNEQUAL layer sizes (converged layers halved by set_allowed)
     for combo in [cb for cb in COMBOS if cb[1] in ("alps", "dealps")]:
         for _ in range(6 if ck.thorough else 3):
